@@ -125,12 +125,26 @@ package combinator
 //@ func Any$1 [C13,C06] implements Parser
 //@   requires[not_total] !total(self)   // only parsers built by Ok() are marked total
 //@   loop 0 invariant[rep] linv(input) && depth(input) == old(depth(input)) && savedKept(input, depth(input)) && cached(input) >= old(cached(input))
+// Result lists (C07: what a repetition returns is what its iterations produced; C13: nothing else). A completed
+// iteration extends the list by as many nodes as the gate and the element produced and keeps the earlier ones (that the
+// new entries are those nodes, in order, is not stated: it needs the parsers' result slices not to alias the list's spare
+// capacity); the repetition goes on for as long as
+// the gate and the element succeed - it ends only when one of them fails.
+//@   loop 0 step[iteration_appends_its_nodes;C07,C13] len(r) == iter(len(r)) + len(pRes) + len(aRes)
+//@   loop 0 step[earlier_nodes_kept;C07,C13] forall i :: 0 <= i && i < iter(len(r)) ==> r[i] == iter(r)[i]
+//@   loop 0 exit[ends_only_on_failure;C07,C13] pErr != nil || err != nil
 //
 // Separator lists: never fails; a trailing separator (or a separator followed by a failing element) is given back.
 //@ func SeparatedBy$1 [C13,C06] implements Parser
 //@   requires[not_total] !total(self)   // only parsers built by Ok() are marked total
 //@   ensures[never_fails] result1 == nil
 //@   loop 0 invariant[rep] linv(input) && depth(input) == old(depth(input)) && savedKept(input, depth(input)) && cached(input) >= old(cached(input))
+// Result lists: a completed round appends exactly the element's nodes (the separator's are dropped); the list ends
+// only when the separator or the element fails, and that failing round adds nothing to it.
+//@   loop 0 step[round_appends_the_element;C07,C13] len(r) == iter(len(r)) + len(aRes)
+//@   loop 0 step[earlier_nodes_kept;C07,C13] forall i :: 0 <= i && i < iter(len(r)) ==> r[i] == iter(r)[i]
+//@   loop 0 exit[ends_only_on_failure;C07,C13] bErr != nil || aErr__2 != nil
+//@   loop 0 exit[failed_round_adds_nothing;C13,C07] len(r) == iter(len(r)) && (forall i :: 0 <= i && i < len(r) ==> r[i] == iter(r)[i])
 //
 //@ func SurroundedBy$1 [C13,C06] implements Parser
 //@   requires[not_total] !total(self)   // only parsers built by Ok() are marked total
